@@ -11,12 +11,12 @@ Out == Outcome(sc.P, sc.xs)
 \* every transfer ends (completes or is cancelled)
 AllEnd == \A i \in 1..Len(sc.xs) : Out.st[i] \in {"done", "cancelled"}
 \* a lone transfer takes volume / min(limit, P); zero volumes take no time
-LoneTime == (Len(sc.xs) = 1 /\ sc.xs[1].c = 0 /\ sc.P > 0) =>
+LoneTime == (Len(sc.xs) = 1 /\ sc.xs[1].c = 0 /\ sc.P > 0 /\ ~Unb(sc.P)) =>
    LET x == sc.xs[1] lim == IF Limit(sc.P, x) > sc.P THEN sc.P ELSE Limit(sc.P, x) IN
    Out.end[1] = Add(R(x.s), Norm(x.v, lim))
 ZeroTakesNoTime == \A i \in 1..Len(sc.xs) : (sc.xs[i].v = 0 /\ Out.st[i] = "done") => Out.end[i] = R(sc.xs[i].s)
 \* never faster than its own limit
 NotFasterThanLimit == \A i \in 1..Len(sc.xs) :
-   (Out.st[i] = "done" /\ Limit(sc.P, sc.xs[i]) > 0 /\ ~IsHuge(sc.xs[i])) => Leq(Add(R(sc.xs[i].s), Norm(sc.xs[i].v, Limit(sc.P, sc.xs[i]))), Out.end[i])
+   (Out.st[i] = "done" /\ Limit(sc.P, sc.xs[i]) > 0 /\ ~IsHuge(sc.xs[i]) /\ ~(Unb(sc.P) /\ sc.xs[i].l = 0)) => Leq(Add(R(sc.xs[i].s), Norm(sc.xs[i].v, Limit(sc.P, sc.xs[i]))), Out.end[i])
 Emit == PrintT(<<"W", ToJson(sc)>>)
 =============================================================================
